@@ -128,6 +128,10 @@ func (ex *Exec) callVal(st *State, site string, c *ssa.CallCommon, fnv Val, args
 		return
 	}
 	if fnv.K != KFunc {
+		if ft := ex.w.funcTypeContract(fnv.Typ); ft != nil {
+			ex.callFuncType(st, site, ft, fnv, args, k)
+			return
+		}
 		panic(subsetErr{"call through a symbolic function value at " + site})
 	}
 	if fnv.Fn == nil {
@@ -218,6 +222,7 @@ func (ex *Exec) applyContract(st *State, site string, fn *ssa.Function, ct *Cont
 		g := ex.evalBool(st, r.expr, e)
 		ex.record(st, fmt.Sprintf("%s/pre:%s@%s:%s", ex.rootName, name, site, r.label), "requires", g, r.src)
 	}
+	ex.assertAt(st, name, e.vars)
 	pre := st.snapshotHeap()
 	// havoc the frame
 	ex.havocModifies(st, ct, e, pre)
@@ -286,8 +291,14 @@ func (ex *Exec) modTargets(st *State, ct *Contract, e *env) []modTarget {
 	for _, m := range ct.modifies {
 		out = append(out, ex.evalMod(st, m, e)...)
 	}
+	if !ct.hasMod {
+		// no modifies clause: the callee may modify the whole program heap and the output/channel/counter ghosts
+		for _, g := range []string{"F!*", "M!*", "S!*", "B!*", "V!*", "G!out*", "G!wfailed", "G!ctr*", "G!sent*", "G!recv*", "G!closed", "G!cancelled", "G!g_*", "G!cb*"} {
+			out = append(out, modTarget{region: g})
+		}
+	}
 	// allocation and write-once regions may always grow
-	out = append(out, modTarget{region: "A"}, modTarget{region: "I!*"}, modTarget{region: "G!dyn"}, modTarget{region: "G!wraps"}, modTarget{region: "G!clock"}, modTarget{region: "G!jsonof"}, modTarget{region: "G!split*"})
+	out = append(out, modTarget{region: "A"}, modTarget{region: "I!*"}, modTarget{region: "G!dyn"}, modTarget{region: "G!wraps"}, modTarget{region: "G!clock"}, modTarget{region: "G!jsonof"}, modTarget{region: "G!split*"}, modTarget{region: "G!snap!*"})
 	return out
 }
 
@@ -301,6 +312,12 @@ func (ex *Exec) evalMod(st *State, m *node, e *env) []modTarget {
 			return nil
 		case "ctr":
 			return []modTarget{{region: "G!ctr*"}}
+		case "cb":
+			return []modTarget{{region: "G!cb*"}}
+		case "readers":
+			return []modTarget{{region: "G!rd*"}}
+		case "heap":
+			return []modTarget{{region: "F!*"}, {region: "M!*"}, {region: "S!*"}, {region: "B!*"}, {region: "G!g_*"}, {region: "V!*"}}
 		case "chans":
 			return []modTarget{{region: "G!sent*"}, {region: "G!recv*"}, {region: "G!closed"}, {region: "G!cancelled"}}
 		}
@@ -443,6 +460,7 @@ func (ex *Exec) builtin(st *State, b *ssa.Builtin, args []Val, c *ssa.CallCommon
 				// cardinality is not modelled: a fresh non-negative number tied to emptiness only
 				n := ex.fresh("maplen", "Int")
 				st.assume("(>= " + n + " 0)")
+				st.assume("(<= " + n + " 4611686018427387904)")
 				_ = mt
 				return term(n, tInt)
 			}
@@ -574,6 +592,10 @@ func sentRegion(et types.Type, lf leaf) (string, string) {
 func (ex *Exec) appendSent(st *State, ch Val, v Val) {
 	ct := ch.Typ.Underlying().(*types.Chan)
 	et := ct.Elem()
+	if inv := ex.w.chanInv(et); inv != nil {
+		e := &env{vars: map[string]Val{"v": v}}
+		ex.record(st, fmt.Sprintf("%s/chaninv:%s@%s", ex.rootName, typeName(et), shortFn(st.top().fn)), "chaninv", ex.evalBool(st, inv, e), "message invariant of channels carrying "+typeName(et))
+	}
 	ln := sel(st.region("G!sentlen", arr("Int", "Int")), ch.T)
 	ts := flatten(v, ex)
 	for i, lf := range leaves(et) {
@@ -606,6 +628,18 @@ func (ex *Exec) ghostField(st *State, ge ghostElem, name string) Val {
 	}
 	if ge.seq == "out" {
 		return ex.outField(st, ge.idx, name)
+	}
+	if ge.seq == "cb" {
+		switch name {
+		case "ret":
+			return term(sel(st.region("G!cb!ret", arr("Int", "Int")), ge.idx), types.Universe.Lookup("error").Type())
+		case "fn":
+			return Val{K: KTerm, T: sel(st.region("G!cb!fn", arr("Int", "Int")), ge.idx)}
+		case "ctx":
+			return Val{K: KTerm, T: sel(st.region("G!cb!arg0$Int", arr("Int", "Int")), ge.idx)}
+		case "line":
+			return term(sel(st.region("G!cb!arg1$String", arr("Int", "String")), ge.idx), tString)
+		}
 	}
 	specFail("ghost field %s", name)
 	return Val{}
@@ -742,6 +776,15 @@ func (ex *Exec) recvValue(st *State, ch Val, et types.Type) Val {
 		st.assume(ex.evalBool(st, inv, e))
 	}
 	rl := st.region("G!recvlen", arr("Int", "Int"))
+	// ghost trace of received values (scalar element types)
+	if v.K == KTerm && v.Typ != nil {
+		if s := scalarSort(v.Typ); s != "" {
+			reg := "G!recvd!" + s
+			a := st.region(reg, arr("Int", arr("Int", s)))
+			st.setRegion(reg, arr("Int", arr("Int", s)), store(a, ch.T, store(sel(a, ch.T), sel(rl, ch.T), v.T)))
+		}
+	}
+	st.setRegion("G!lastrecv", "Int", sel(rl, ch.T))
 	st.setRegion("G!recvlen", arr("Int", "Int"), store(rl, ch.T, "(+ "+sel(rl, ch.T)+" 1)"))
 	return v
 }
@@ -755,25 +798,116 @@ func (ex *Exec) syncPoint(st *State) {
 	}
 }
 
+// pendingGo: a spawned closure. Its writes to captured cells become visible to the spawner when the spawner
+// receives from a channel the closure closes or sends on (join); at any other synchronisation the cells it
+// writes are unknown (it may or may not have run).
+type pendingGo struct {
+	fn        Val
+	joinCells []int // cells holding the channels the closure closes / sends on
+	written   []int // captured cells the closure writes
+}
+
+func goroutineSummary(fv Val) (join []int, written []int) {
+	fn := fv.Fn
+	idx := map[*ssa.FreeVar]int{}
+	for i, f := range fn.FreeVars {
+		idx[f] = i
+	}
+	cellOf := func(v ssa.Value) (int, bool) {
+		for {
+			switch x := v.(type) {
+			case *ssa.FreeVar:
+				if b := fv.Binds[idx[x]]; b.K == KCellPtr {
+					return b.Cell.ID, true
+				}
+				return 0, false
+			case *ssa.FieldAddr:
+				v = x.X
+			case *ssa.UnOp:
+				v = x.X
+			default:
+				return 0, false
+			}
+		}
+	}
+	for _, b := range fn.Blocks {
+		for _, in := range b.Instrs {
+			switch x := in.(type) {
+			case *ssa.Store:
+				if _, isFV := x.Addr.(*ssa.FreeVar); isFV {
+					if c, ok := cellOf(x.Addr); ok {
+						written = append(written, c)
+					}
+				} else if fa, ok := x.Addr.(*ssa.FieldAddr); ok {
+					if c, ok := cellOf(fa); ok {
+						written = append(written, c)
+					}
+				}
+			case *ssa.Call:
+				if bi, ok := x.Common().Value.(*ssa.Builtin); ok && bi.Name() == "close" {
+					if c, ok := cellOf(x.Common().Args[0]); ok {
+						join = append(join, c)
+					}
+				}
+			case *ssa.Send:
+				if c, ok := cellOf(x.Chan); ok {
+					join = append(join, c)
+				}
+			}
+		}
+	}
+	return
+}
+
 func (ex *Exec) goStmt(st *State, in *ssa.Go) {
 	c := in.Common()
 	if c.IsInvoke() {
 		return
 	}
 	fv := st.get(c.Value)
-	if fv.K == KFunc {
-		if st.shared == nil {
-			st.shared = map[int]bool{}
-		}
-		for _, b := range fv.Binds {
-			if b.K == KCellPtr {
-				st.shared[b.Cell.ID] = true
+	if fv.K != KFunc || fv.Fn == nil {
+		return
+	}
+	ex.spawned = append(ex.spawned, fv.Fn)
+	if len(fv.Fn.FreeVars) == 0 {
+		return
+	}
+	join, written := goroutineSummary(fv)
+	if len(join) > 0 {
+		st.pending = append(st.pending, pendingGo{fn: fv, joinCells: join, written: written})
+		return
+	}
+	if st.shared == nil {
+		st.shared = map[int]bool{}
+	}
+	for _, w := range written {
+		st.shared[w] = true
+	}
+}
+
+// joinOn: the spawner receives from channel term ch. Goroutines that close/send on it have run up to that
+// point: their bodies are executed here; the cells written by all other pending goroutines are havocked.
+func (ex *Exec) joinOn(st *State, ch string, k func(*State)) {
+	for i, p := range st.pending {
+		for _, jc := range p.joinCells {
+			if v, ok := st.cells[jc]; ok && v.K == KTerm && v.T == ch {
+				st.pending = append(append([]pendingGo(nil), st.pending[:i]...), st.pending[i+1:]...)
+				ex.inlined["go:"+shortFn(p.fn.Fn)] = true
+				ex.callFn(st, "join:"+shortFn(p.fn.Fn), p.fn.Fn, nil, p.fn.Binds, func(st *State, _ Val) {
+					ex.joinOn(st, ch, k)
+				})
+				return
 			}
 		}
-		if fv.Fn != nil {
-			ex.spawned = append(ex.spawned, fv.Fn)
+	}
+	for _, p := range st.pending {
+		for _, w := range p.written {
+			if v, ok := st.cells[w]; ok {
+				st.cells[w] = st.rehavoc(v)
+			}
 		}
 	}
+	k(st)
 }
 
 func (ex *Exec) selectStmt(st *State, in *ssa.Select, k func(*State, Val)) {
@@ -833,15 +967,79 @@ func (ex *Exec) selectStmt(st *State, in *ssa.Select, k func(*State, Val)) {
 				sx.markCancelled(arms[i].ch)
 				sx.trace = append(sx.trace, "select:done")
 			}
-			rv := ex.recvValue(sx, arms[i].ch, et)
-			k(sx, mk(sx, i, recvNo, rv))
+			ii, rn, chv := i, recvNo, arms[i].ch
+			ex.joinOn(sx, chv.T, func(sx *State) {
+				rv := ex.recvValue(sx, chv, et)
+				k(sx, mk(sx, ii, rn, rv))
+			})
 			recvNo++
 		} else {
+			if !in.Blocking {
+				// a non-blocking send on a buffered channel proceeds only if there is room
+				capT := sel(sx.region("G!chancap", arr("Int", "Int")), arms[i].ch.T)
+				pend := "(- " + sel(sx.region("G!sentlen", arr("Int", "Int")), arms[i].ch.T) + " " + sel(sx.region("G!recvlen", arr("Int", "Int")), arms[i].ch.T) + ")"
+				sx.assume(implies("(> "+capT+" 0)", "(< "+pend+" "+capT+")"))
+			}
 			ex.appendSent(sx, arms[i].ch, arms[i].snd)
 			k(sx, mk(sx, i, -1, Val{}))
 		}
 	}
 	if !in.Blocking {
+		// default arm: every send arm was not ready; for a buffered channel that means it is full
+		for i, s := range in.States {
+			if s.Dir == types.SendOnly {
+				capT := sel(st.region("G!chancap", arr("Int", "Int")), arms[i].ch.T)
+				pend := "(- " + sel(st.region("G!sentlen", arr("Int", "Int")), arms[i].ch.T) + " " + sel(st.region("G!recvlen", arr("Int", "Int")), arms[i].ch.T) + ")"
+				st.assume(implies("(> "+capT+" 0)", "(>= "+pend+" "+capT+")"))
+			}
+		}
 		k(st, mk(st, -1, -1, Val{}))
 	}
+}
+
+// callFuncType: call through a value of a named function type that has a `functype` contract. The call is
+// recorded in the ghost trace cb (arguments, result); the callee may do anything its contract allows.
+func (ex *Exec) callFuncType(st *State, site string, ct *Contract, fnv Val, args []Val, k func(*State, Val)) {
+	ex.record(st, ex.rootName+"/nilfunc@"+site, "safety", not(eq(fnv.T, "0")), "call of a nil function value")
+	sig := fnv.Typ.Underlying().(*types.Signature)
+	e := &env{vars: map[string]Val{}}
+	for i := 0; i < sig.Params().Len() && i < len(args); i++ {
+		e.vars[sig.Params().At(i).Name()] = args[i]
+		e.vars["arg"+strconv.Itoa(i)] = args[i]
+	}
+	for _, r := range ct.requires {
+		ex.record(st, fmt.Sprintf("%s/pre:functype@%s:%s", ex.rootName, site, r.label), "requires", ex.evalBool(st, r.expr, e), r.src)
+	}
+	pre := st.snapshotHeap()
+	ex.havocModifies(st, ct, e, pre)
+	var res Val
+	switch sig.Results().Len() {
+	case 0:
+		res = Val{K: KUnit}
+	case 1:
+		res = st.freshVal("cbret", sig.Results().At(0).Type())
+	default:
+		res = st.freshVal("cbret", sig.Results())
+	}
+	e.result = &res
+	for _, en := range ct.ensures {
+		st.assume(ex.evalBool(st, en.expr, e))
+	}
+	// ghost trace of callback invocations
+	n := st.region("G!cb#len", "Int")
+	for i, a := range args {
+		if a.K == KTerm && a.Typ != nil {
+			if s := scalarSort(a.Typ); s != "" {
+				reg := "G!cb!arg" + strconv.Itoa(i) + "$" + s
+				st.setRegion(reg, arr("Int", s), store(st.region(reg, arr("Int", s)), n, a.T))
+			}
+		}
+	}
+	if res.K == KTerm {
+		st.setRegion("G!cb!ret", arr("Int", "Int"), store(st.region("G!cb!ret", arr("Int", "Int")), n, res.T))
+	}
+	st.setRegion("G!cb!fn", arr("Int", "Int"), store(st.region("G!cb!fn", arr("Int", "Int")), n, fnv.T))
+	st.setRegion("G!cb#len", "Int", "(+ "+n+" 1)")
+	ex.syncPoint(st)
+	k(st, res)
 }
